@@ -180,9 +180,15 @@ fn custom_case(seed: u64, nlines: usize) -> (FontSpec, Vec<LineSpec>) {
     let mut rng = Rng::new(seed ^ 0xC14C);
     let (cw, ch, s) = (rng.u32r(1, 9), rng.u32r(1, 12), rng.u32r(0, 3));
     // mapping: singles and ranges over several blocks, sometimes duplicated, rarely ill-formed
-    let pools: [u32; 5] = [0x61, 0x30, 0x3b1, 0x4e00, 0x1F600];
+    // (pools include C0 control characters and DEL: legal in a mapping, e.g. a code page 437 font)
+    let pools: [u32; 8] = [0x61, 0x30, 0x3b1, 0x4e00, 0x1F600, 0x01, 0x10, 0x7b];
     let mut map: Vec<u32> = vec![];
     let mut exp: Vec<u32> = vec![];
+    // a third of the mappings start like every built-in one: with the complete ASCII range
+    if rng.chance(1, 3) {
+        map.extend_from_slice(&[0, 0x20, 0x7f]);
+        exp.extend(0x20..=0x7f);
+    }
     let nent = rng.usize(0, 6);
     for _ in 0..nent {
         let base = *rng.pick(&pools) + rng.u32r(0, 12);
@@ -256,6 +262,8 @@ fn custom_case(seed: u64, nlines: usize) -> (FontSpec, Vec<LineSpec>) {
                 }
             })
             .collect();
+        // (a line feed would split the line of a Text)
+        let chars: Vec<u32> = chars.into_iter().map(|c| if c == 10 { 11 } else { c }).collect();
         lines.push(LineSpec { chars, pos: (rng.i32(-30, 30), rng.i32(-30, 30)), sty: combos[(k + off) % 36], api: (k % 2) as u8 });
     }
     (font, lines)
